@@ -4,9 +4,9 @@
    count are proved for every rule, molecule and match, and so is the
    rejection of every rule that leaves a labelled atom unbalanced (against an
    independent specification `contrib` of what each edit does to an atom's
-   electrons); that the edit on the NAMED atoms/bonds is exactly the declared
-   one is decided by the correspondence of the executable model (rule reader
-   + edit application) on every run. *)
+   electrons), and so are the effect of each edit on the pair / atom it names
+   and the frame for all other pairs of atoms.  The model (rule reader + edit
+   application) is tied to the code by the correspondence on every run. *)
 From Coq Require Import List NArith ZArith Arith Bool.
 From PG Require Import Common.Strs Ring.Peg Ring.Reader Graph.Mol Graph.Match Graph.Reaction Graph.Reaction_proofs.
 Import ListNotations.
@@ -26,6 +26,56 @@ Theorem C16_apply_edit_frame_atoms : forall img m e m' k,
   apply_edit img m e = Some m' -> ~ In k img -> nth_error (atoms m') k = nth_error (atoms m) k.
 Proof. exact apply_edit_frame_atoms. Qed.
 Print Assumptions C16_apply_edit_frame_atoms.
+
+(* ... and every pair of atoms other than the pair a bond edit names keeps its bond *)
+Theorem C16_apply_edit_frame_bonds : forall img m e m' u v,
+  apply_edit img m e = Some m' ->
+  (forall i j a b, edit_pair e = Some (i, j) -> nth_error img i = Some a -> nth_error img j = Some b -> ~ same_pair u v a b) ->
+  bond_between m' u v = bond_between m u v.
+Proof. exact apply_edit_frame_bonds. Qed.
+Print Assumptions C16_apply_edit_frame_bonds.
+
+(* precisely the declared edit on the named pair / atom *)
+Theorem C16_break_effect : forall img m i j m', apply_edit img m (EBreak i j) = Some m' ->
+  exists a b, nth_error img i = Some a /\ nth_error img j = Some b /\ bond_between m' a b = None /\ atoms m' = atoms m.
+Proof. exact edit_break_effect. Qed.
+Theorem C16_form_effect : forall img m i j t m', apply_edit img m (EForm i j t) = Some m' ->
+  exists a b bd, nth_error img i = Some a /\ nth_error img j = Some b /\ a <> b /\ bond_between m a b = None
+                 /\ bond_between m' a b = Some bd /\ b_t bd = t /\ atoms m' = atoms m.
+Proof. exact edit_form_effect. Qed.
+Theorem C16_modify_effect : forall img m i j t m', apply_edit img m (EModify i j t) = Some m' ->
+  exists a b bd, nth_error img i = Some a /\ nth_error img j = Some b
+                 /\ bond_between m' a b = Some bd /\ b_t bd = t /\ atoms m' = atoms m.
+Proof. exact edit_modify_effect. Qed.
+Theorem C16_increase_effect : forall img m i j m', apply_edit img m (EInc i j) = Some m' ->
+  exists a b old bd t', nth_error img i = Some a /\ nth_error img j = Some b
+    /\ bond_between m a b = Some old /\ inc_type (b_t old) = Some t'
+    /\ bond_between m' a b = Some bd /\ b_t bd = t' /\ atoms m' = atoms m.
+Proof. exact edit_inc_effect. Qed.
+Theorem C16_decrease_effect : forall img m i j m', apply_edit img m (EDec i j) = Some m' ->
+  exists a b old, nth_error img i = Some a /\ nth_error img j = Some b /\ bond_between m a b = Some old
+    /\ atoms m' = atoms m
+    /\ match dec_type (b_t old) with
+       | Some (Some t') => exists bd, bond_between m' a b = Some bd /\ b_t bd = t'
+       | Some None => bond_between m' a b = None
+       | None => False
+       end.
+Proof. exact edit_dec_effect. Qed.
+Theorem C16_atom_edit_effect : forall img m e m', apply_edit img m e = Some m' -> edit_pair e = None ->
+  bonds m' = bonds m /\
+  exists i a, nth_error img i = Some a /\
+    forall x, nth_error (atoms m) a = Some x ->
+      exists y, nth_error (atoms m') a = Some y /\ a_z y = a_z x /\ a_arom y = a_arom x /\
+        match e with
+        | ESetRad _ n => a_rad y = n /\ a_chg y = 0%Z
+        | ERadInc _ => a_rad y = (a_rad x + 1)%N /\ a_chg y = a_chg x
+        | ERadDec _ => a_rad y = (a_rad x - 1)%N /\ a_rad x <> 0%N /\ a_chg y = a_chg x
+        | EChgInc _ => a_chg y = (a_chg x + 1)%Z /\ a_rad y = a_rad x
+        | EChgDec _ => a_chg y = (a_chg x - 1)%Z /\ a_rad y = a_rad x
+        | _ => True
+        end.
+Proof. exact edit_atom_effect. Qed.
+Print Assumptions C16_atom_edit_effect.
 
 (* one product set per match of the reactant pattern *)
 Theorem C16_one_product_per_match : forall r m,
